@@ -844,7 +844,8 @@ theorem run_inv_sys {lvl : Level} (hl : lvl ≠ .none) {s : Sys} (h : SysInv lvl
   | nil => exact h
   | cons a r ih => simp only [run, List.foldl_cons] at ih ⊢; exact ih (step_inv_sys hl h a)
 
-theorem init_inv (lvl : Level) (frames : Nat) (hr hc : Bool) : SysInv lvl (Sys.init lvl frames hr hc) := by
+theorem init_inv (lvl : Level) (frames : Nat) (hr hc bt : Bool) :
+    SysInv (effLevel lvl bt) (Sys.init lvl frames hr hc bt) := by
   refine ⟨by simp [Sys.init, Tracer.new], ?_⟩
   simp only [ShInv, Sys.init, Tracer.new, List.map_nil]
   exact ⟨by simp [Table.bytes], by simp [W], by simp [Table.bytes, ownedBytes], by simp, by simp [heldL],
